@@ -84,7 +84,7 @@ func (x *Exec) call(st *State, fr *frame, site ssa.Instruction, cc *ssa.CallComm
 }
 
 func ifaceName(t types.Type) string {
-	return types.TypeString(t, nil)
+	return types.TypeString(types.Unalias(t), nil)
 }
 
 func (x *Exec) callFunc(st *State, fr *frame, site ssa.Instruction, fn *ssa.Function, args []Val, bind []Val, k func(st *State, v Val)) {
@@ -398,7 +398,7 @@ func (x *Exec) applyContract(st *State, fr *frame, con *Contract, name string, s
 			}
 		}
 		last := res.At(res.Len() - 1)
-		if isErrorType(last.Type()) {
+		if _, clash := env.vars["err"]; isErrorType(last.Type()) && !clash {
 			if res.Len() == 1 {
 				env.vars["err"] = resV
 			} else {
